@@ -4,6 +4,7 @@
 From Coq Require Import List Arith NArith Bool String.
 From Verif Require Import Lib.Sched Kv.KeyOrd Kv.AList Kv.Spec Kv.Mem Kv.Sql Kv.Skel Kv.Refine
   Kv.SeqFacts Kv.KvGen Kv.Atomic Kv.AtomicSql Kv.AtomicCor Gen.KvSql Gen.KvMemSkel.
+From Verif Require Import Kv.Retry Gen.KvRetry.
 Import ListNotations.
 Local Open Scope string_scope.
 
@@ -64,6 +65,18 @@ Lemma gen_psql_mutate_shape :
   gen_psql_mutate_select = "select v from %s where k=$1" /\
   gen_psql_mutate_select_locks_row = false.
 Proof. repeat split. Qed.
+
+(** What the function of a Mutate is shown: every backend's mutate invokes
+    its function at most once per call (one call site, outside every loop,
+    handed to nobody else), or KV.Mutate decodes into a target created for
+    that invocation.  Today the first holds and the second does not (the
+    closure decodes into the caller's [v]); a retry loop around the
+    transaction needs the second (Kv/Retry.v [reused_target_refuted]). *)
+Definition gen_mutate_shape : mshape :=
+  mkMShape (forallb (fun r => snd (fst r)) gen_mutate_once) gen_wrapper_target_fresh.
+
+Lemma gen_mutate_target_ok : mshape_ok gen_mutate_shape = true.
+Proof. vm_compute. reflexivity. Qed.
 
 Local Close Scope string_scope.
 
